@@ -1,4 +1,5 @@
 """C11 - mirroring a query mirrors its first-pass alignment."""
+from vf import core
 from vf import gen, hooks, oracles, pipeline, text
 from vf.core import Shard, rng_for
 
@@ -142,7 +143,7 @@ def run_shard(spec):
         rng = rng_for('C11', spec['seed'], spec['shard'], i)
         case = make_case(rng)
         case['gen'] = [spec['seed'], spec['shard'], i]
-        judge(case, spec['workdir'], sh)
+        core.isolated(judge, sh, case, spec['workdir'])
     return sh
 
 
